@@ -223,7 +223,7 @@ def cmd_argv(world):
             a.append(b"%d" % o["days"])
         return a
     if cmd == "rm":
-        return ([b"--"] if world.get("args") and world["args"][0].startswith(b"-") else []) + list(world.get("args", []))
+        return list(world.get("args", []))      # trash-rm has no option parser: argv[1] is the pattern
     raise ValueError(cmd)
 
 
@@ -283,3 +283,19 @@ def model_outs(cmd, outs):
             else:
                 se.append((kind, unhx(o[2])))
     return so, sorted(se)
+
+
+def world_from_state(world, state, **changes):
+    """a new world whose node list is a canonical state (snapshot) of a previous run"""
+    nodes = []
+    for p, (k, d, m, t, g) in sorted(state.items()):
+        if k == "d":
+            nodes.append({"p": p, "k": "d", "mode": m, "mtime": t if t else MTIME_EPOCH + 50})
+        elif k == "f":
+            nodes.append({"p": p, "k": "f", "data": d, "mode": m, "mtime": t if t else MTIME_EPOCH + 50})
+        elif k == "l":
+            nodes.append({"p": p, "k": "l", "target": g})
+    w = dict(world)
+    w["nodes"] = nodes
+    w.update(changes)
+    return w
